@@ -570,8 +570,14 @@ class MarkovNetwork(UndirectedGraph):
 
             # To compute clique potential, initially set it as unity factor
             var_card = [self.get_cardinality()[x] for x in node]
+            state_names = {
+                var: factor.state_names[var]
+                for factor in self.factors
+                for var in factor.scope()
+                if var in node
+            }
             clique_potential = DiscreteFactor(
-                node, var_card, np.ones(np.prod(var_card))
+                node, var_card, np.ones(np.prod(var_card)), state_names=state_names
             )
             # multiply it with the factors associated with the variables present
             # in the clique (or node)
